@@ -505,6 +505,23 @@ static void f16_render (uint64_t idx) {
 static int f16_ninputs (uint64_t idx) { return 6; }
 static pinput f16_input (uint64_t idx, int i) { static const int64_t av[] = {0, 7, -1, 0x80, 0xffff8000ll, 0x123456789all}; pinput p = {av[i], 0, -1, 0, 0}; return p; }
 
+/* =============================== F17: arithmetic with an identity constant (x+0, x*1, ...) on every operand form: link-time rewriting into moves =============================== */
+static const char *F17_OP[] = {"add", "sub", "or", "xor", "lsh", "rsh", "ursh", "mul", "div", "udiv", "adds", "subs", "ors", "xors", "muls", "lshs"};
+static const int F17_ONE[] = {0, 0, 0, 0, 0, 0, 0, 1, 1, 1, 0, 0, 0, 0, 1, 0};
+#define NF17O 16
+static const char *F17_LOC[] = {"r0", "i64:8(m)", "i64:(m,k,8)", "i32:16(m)", "u8:40(m,k)", "i64:24(q)"};
+#define NF17L 6
+static uint64_t f17_count (int th) { return (uint64_t) NF17O * NF17L * NF17L * 2; }
+static void f17_render (uint64_t idx) {
+  int comm = idx % 2; idx /= 2; int src = idx % NF17L; idx /= NF17L; int dst = idx % NF17L; int op = (int) (idx / NF17L);
+  begin_func (""); S ("  mov k, 2\n  mov r0, a\n  mov i64:8(m), b\n  mov i64:16(m), a\n  mov i64:24(q), 77\n");
+  if (comm && (op <= 0 || op == 2 || op == 3 || op == 7 || op == 10 || op >= 12)) S ("  %s %s, %d, %s\n", F17_OP[op], F17_LOC[dst], F17_ONE[op], F17_LOC[src]); /* constant first (commutative ops only) */
+  else S ("  %s %s, %s, %d\n", F17_OP[op], F17_LOC[dst], F17_LOC[src], F17_ONE[op]);
+  S ("  mov r, r0\n  add r, r, i64:8(m)\n  xor r, r, i64:16(m)\n  add r, r, i64:24(q)\n  ret r\n"); end_func ();
+}
+static int f17_ninputs (uint64_t idx) { return 6; }
+static pinput f17_input (uint64_t idx, int i) { static const int64_t av[] = {0, 7, -1, 0x80, 0xffff8000ll, 0x123456789all}; pinput p = {av[i], av[5 - i], -1, 0, 0}; return p; }
+
 int progfam_thorough;
 static const family FAMILIES[] = {
   {"F1a-ext-chains", f1a_count, f1a_render, in_intgrid_n, in_intgrid},
@@ -527,6 +544,7 @@ static const family FAMILIES[] = {
   {"F14-structured-loops", f14_count, f14_render, f13_ninputs, f13_input},
   {"F15-constant-operands", f15_count, f15_render, f15_ninputs, f15_input},
   {"F16-constant-first-extended", f16_count, f16_render, f16_ninputs, f16_input},
+  {"F17-identity-constants", f17_count, f17_render, f17_ninputs, f17_input},
   /* thorough only, 1.5e8 programs: kept last so that a deadline cuts this family and no other */
   {"F3t-cfg3-full", f3t_count, f3t_render, f3_ninputs, f3_input},
 };
